@@ -427,6 +427,9 @@ func (a *orderAnalysis) isPure(f *ssa.Function) bool {
 	}
 	a.pureMemo[f] = 3
 	ok := true
+	if len(mutatedParams(f)) > 0 {
+		ok = false // edits memory handed in by the caller (append/copy/store through a parameter)
+	}
 	for _, b := range f.Blocks {
 		for _, in := range b.Instrs {
 			if !a.pureInstr(f, in) {
